@@ -180,6 +180,11 @@ class UDPProxyProtocol(asyncio.DatagramProtocol):
             socks_parsed = self._parse_socks_datagram(data)
             if socks_parsed:
                 remote_addr, data = socks_parsed
+                if remote_addr == source_addr:
+                    # Registering the client itself as a far host would make us treat everything
+                    # it sends from now on as coming from the far end.
+                    logging.warning("Got SOCKS packet from %s:%s addressed to itself" % source_addr)
+                    return
                 # register the destination as a known far addr
                 # this allows us to have source and dest addr on the same IP
                 # since we expect a send from client->far to happen first
